@@ -120,7 +120,11 @@ verifBody:
 					tq.RemoteRef(currentRemoteRef()),
 					tq.WithBatchSize(cfg.TransferBatchSize()),
 				)
-				go infiniteTransferBuffer(q, available)
+				// Register for the queue's results before anything
+				// is added to it: a watcher that registers only once
+				// its goroutine gets to run can miss transfers, and
+				// is never closed if the queue has finished by then.
+				go infiniteTransferBuffer(q, q.Watch(), available)
 			}
 
 			w = pktline.NewPktlineWriter(os.Stdout, smudgeFilterBufferCapacity)
@@ -259,12 +263,11 @@ verifBody:
 
 // infiniteTransferBuffer streams the results of q.Watch() into "available" as
 // if available had an infinite channel buffer.
-func infiniteTransferBuffer(q *tq.TransferQueue, available chan<- *tq.Transfer) {
+func infiniteTransferBuffer(q *tq.TransferQueue, watch <-chan *tq.Transfer, available chan<- *tq.Transfer) {
 	// Stream results from q.Watch() into chan "available" via an infinite
 	// buffer.
 
 	verifhook.Yield("filter.buffer-start", q)
-	watch := q.Watch()
 
 	// pending is used to keep track of an ordered list of available
 	// `*tq.Transfer`'s that cannot be written to "available" without
